@@ -11,6 +11,7 @@ package main
 import (
 	"context"
 	"fmt"
+	"hash/fnv"
 	"math"
 	"os"
 	"path/filepath"
@@ -123,6 +124,8 @@ func (h history) String() string {
 // ---------------------------------------------------------------------------------------------------
 // the node
 
+var walPageSize int
+
 var (
 	baseTime   int64
 	familyTime int64
@@ -135,6 +138,7 @@ var (
 )
 
 type node struct {
+	metrics []string // metric names to query (those some appended entry may have created)
 	root   string
 	box    *vbox.Box
 	ctx    context.Context
@@ -143,15 +147,20 @@ type node struct {
 	part   replica.Partition
 }
 
+var tOpen, tClose, tQuery, tReplay time.Duration
+var nOpen int
+
 func openNode(root string) (*node, error) {
-	n := &node{root: root}
+	t0 := time.Now()
+	defer func() { tOpen += time.Since(t0); nOpen++ }()
+	n := &node{root: root, metrics: []string{"m1", "m2", "m3"}}
 	b, err := vbox.Open(filepath.Join(root, "tsdb"), "db", dbOpt, []models.ShardID{1})
 	if err != nil {
 		return nil, fmt.Errorf("engine: %w", err)
 	}
 	n.box = b
 	n.ctx, n.cancel = context.WithCancel(context.Background())
-	n.wal = replica.NewWriteAheadLogManager(n.ctx, config.WAL{Dir: filepath.Join(root, "wal"), RemoveTaskInterval: ltoml.Duration(100000 * time.Hour)},
+	n.wal = replica.NewWriteAheadLogManager(n.ctx, config.WAL{Dir: filepath.Join(root, "wal"), PageSize: ltoml.Size(walPageSize), RemoveTaskInterval: ltoml.Duration(100000 * time.Hour)},
 		models.NodeID(1), b.Engine, nil, nil)
 	if fileExists(filepath.Join(root, "wal")) {
 		if err := n.wal.Recovery(); err != nil {
@@ -176,14 +185,18 @@ func openNode(root string) (*node, error) {
 func fileExists(p string) bool { _, err := os.Stat(p); return err == nil }
 
 func (n *node) close() {
+	t0 := time.Now()
+	defer func() { tClose += time.Since(t0) }()
+	// engine first: closing a data family flushes its memory database and acknowledges the WAL, which
+	// must still be mapped at that moment
+	if n.box != nil {
+		n.box.Close()
+	}
 	if n.wal != nil {
 		_ = n.wal.Close()
 	}
 	if n.cancel != nil {
 		n.cancel()
-	}
-	if n.box != nil {
-		n.box.Close()
 	}
 }
 
@@ -193,9 +206,19 @@ func entryMsg(k int) []byte {
 	if err != nil {
 		vevid.Fatal("block: %v", err)
 	}
+	return compressBlock(rows)
+}
+
+// compressBlock builds a WAL message the way replica.chunk does: snappy writer, Close, Bytes
+func compressBlock(block []byte) []byte {
 	w := compress.NewSnappyWriter()
-	_, _ = w.Write(rows)
-	return append([]byte(nil), w.Bytes()...)
+	if _, err := w.Write(block); err != nil {
+		vevid.Fatal("snappy: %v", err)
+	}
+	if err := w.Close(); err != nil {
+		vevid.Fatal("snappy close: %v", err)
+	}
+	return w.Bytes()
 }
 
 func (n *node) cgAck() int64 {
@@ -244,10 +267,15 @@ func (n *node) replayAll() error {
 
 // counts returns, per entry, how often it is contained in what a query by name and tags returns
 func (n *node) counts() ([]int, []string) {
+	t0 := time.Now()
+	defer func() { tQuery += time.Since(t0) }()
 	var problems []string
 	sums := map[[2]string]float64{}
-	for _, m := range []string{"m1", "m2", "m3", "mz"} {
+	for _, m := range n.metrics {
 		r := n.box.Query("select f from "+m+" group by host", queryRange, vbox.Layout{Leaves: []vbox.Leaf{{Node: "10.0.0.1:2891", Shards: []models.ShardID{1}}}, CompleteAt: 1})
+		if os.Getenv("C07_DEBUG") != "" {
+			fmt.Fprintf(os.Stderr, "QUERY %s err=%v leafErrs=%v result=%v\n", m, r.Err, r.LeafErrs, vbox.Canon(r.Result))
+		}
 		if r.Err != nil {
 			if strings.Contains(r.Err.Error(), "not found") {
 				continue
@@ -445,7 +473,11 @@ func runHistory(rep *vevid.Report, h history) {
 			}
 			opErr = err
 		case opWalGC:
-			_ = n.part.IsExpire()
+			// what partition.IsExpire does first (sync consumer-group acks to the queue, GC pages); the expiry
+			// decision itself (stop replicators of an old family) is not part of the history
+			log := replica.VerifPartitionLog(n.part)
+			log.Sync()
+			log.Queue().GC()
 		case opReopen:
 			n.close()
 			n, opErr = openNode(root)
@@ -460,8 +492,14 @@ func runHistory(rep *vevid.Report, h history) {
 	}
 	// live check at the end of the history: replay everything, query
 	rec.Pause()
+	if os.Getenv("C07_DEBUG") != "" {
+		fmt.Fprintf(os.Stderr, "LIVE before replay: consumed=%d appended=%d ack=%d stored=%d\n", n.cgConsumed(), n.appended(), n.cgAck(), n.storedSeq())
+	}
 	if err := n.replayAll(); err != nil {
 		viol("live-replay", "replica.Partition", err.Error())
+	}
+	if os.Getenv("C07_DEBUG") != "" {
+		fmt.Fprintf(os.Stderr, "LIVE after replay: consumed=%d appended=%d ack=%d stored=%d\n", n.cgConsumed(), n.appended(), n.cgAck(), n.storedSeq())
 	}
 	got, probs := n.counts()
 	for _, p := range probs {
@@ -485,15 +523,30 @@ func runHistory(rep *vevid.Report, h history) {
 	n = nil
 	rep.Count("seam_calls", int64(calls))
 	rep.Count("histories", 1)
+	if os.Getenv("C07_DEBUG") != "" && len(points) > 0 {
+		last := points[len(points)-1].Image
+		var tot int
+		for _, b := range last.Files {
+			tot += len(b)
+		}
+		fmt.Fprintf(os.Stderr, "IMAGE files=%d bytes=%d: %s\n", len(last.Files), tot, last.Describe())
+	}
 
 	for _, p := range points {
 		nt := p.Note.(note)
 		key := fmt.Sprintf("%s|%d|%d", p.Image.Hash(), nt.Acked.Appended, nt.InFlight)
+		if !mineKey(key) {
+			continue // another worker recovers this image (every worker runs every history; images are dealt by hash)
+		}
 		rep.Count("crash_points_total", 1)
 		if seenImages[key] {
 			continue
 		}
 		seenImages[key] = true
+		if vevid.F.Expired() {
+			rep.Cap("deadline while recovering the images of history " + h.String())
+			break
+		}
 		rep.Evaluations++
 		if nt.InFlight >= 0 {
 			rep.DistinctNontrivial++
@@ -503,6 +556,15 @@ func runHistory(rep *vevid.Report, h history) {
 	if len(rep.Samples) < 6 {
 		rep.Sample(map[string]interface{}{"history": h.String(), "seam_calls": calls, "crash_points": len(points)})
 	}
+}
+
+func mineKey(key string) bool {
+	if vevid.F.Shards <= 1 {
+		return true
+	}
+	h := fnv.New32a()
+	_, _ = h.Write([]byte(key))
+	return int(h.Sum32()%uint32(vevid.F.Shards)) == vevid.F.Shard
 }
 
 func recoverImage(rep *vevid.Report, h history, p *vcrashfs.Point, nt note) {
@@ -573,9 +635,8 @@ func recoverImage(rep *vevid.Report, h history, p *vcrashfs.Point, nt note) {
 	rep.Outcome(fmt.Sprintf("rec ack=%d stored=%d app=%d got=%v", ack, stored, app, got))
 	// 4. a metric created after recovery must not collide with ids used by recovered files
 	rows, _ := vbox.Block([]vbox.Point{{Metric: "mz", Tags: map[string]string{"host": "z"}, Field: "f", Type: "sum", Value: 1e6, Timestamp: baseTime + 5000}})
-	w := compress.NewSnappyWriter()
-	_, _ = w.Write(rows)
-	if err := n.part.WriteLog(append([]byte(nil), w.Bytes()...)); err != nil {
+	n.metrics = append(n.metrics, "mz")
+	if err := n.part.WriteLog(compressBlock(rows)); err != nil {
 		viol("post-recovery-append-failed", "replica.Partition.WriteLog", err.Error())
 		return
 	}
@@ -609,6 +670,7 @@ func recoverImage(rep *vevid.Report, h history, p *vcrashfs.Point, nt note) {
 		n = nil
 		return
 	}
+	n.metrics = append(n.metrics, "mz")
 	if err := n.replayAll(); err != nil {
 		viol("replay-stuck", "replica.Partition", "after second restart: "+err.Error())
 		return
@@ -683,6 +745,7 @@ func main() {
 	if dp > 4096 || ii > 16 {
 		vevid.Fatal("page geometry not scaled: dataPageSize=%d indexItemsPerPage=%d", dp, ii)
 	}
+	walPageSize = dp
 	rep.Bounds["dataPageSize"] = dp
 	rep.Bounds["indexItemsPerPage"] = ii
 	day := time.Now().UTC().Truncate(24*time.Hour).UnixMilli() - 24*3600*1000
@@ -708,18 +771,15 @@ func main() {
 		rep.Write()
 		return
 	}
-	maxLen := 5
+	maxLen := 3
 	if f.Thorough() {
-		maxLen = 7
+		maxLen = 6
 	}
 	rep.Bounds["max_history_length_exhaustive"] = maxLen
 	rep.Rule = fmt.Sprintf("%d curated histories + all histories of length <=%d over {append (6 entries: existing series, new series, new metric), replicate (one local replicator step), flushMeta -> flushIndex -> flushData (production order, other ops allowed in between), walGC (sync acks + page GC), reopen} respecting preconditions; a crash image of the whole node directory after EVERY seam call (kv manifest/table writers, renames, removals, queue and consumer-group page stores, sequence sync); evaluations = distinct (image, entries appended, op in flight) recovered by a real node, replayed and queried; non-trivial = an operation was in flight", len(curated), maxLen)
 	var idx int64
 	run := func(h history) bool {
 		idx++
-		if !f.Mine(idx) {
-			return true
-		}
 		if f.Expired() {
 			rep.Cap(fmt.Sprintf("deadline at history #%d", idx))
 			return false
@@ -736,5 +796,9 @@ func main() {
 		histories(n, run)
 	}
 	_ = sort.Ints
+	rep.Extra["time_open_s"] = tOpen.Seconds()
+	rep.Extra["time_close_s"] = tClose.Seconds()
+	rep.Extra["time_query_s"] = tQuery.Seconds()
+	rep.Extra["node_opens"] = nOpen
 	rep.Write()
 }
